@@ -8,7 +8,8 @@ Driver operations of C03.
   c03_pick  {"group": [[name, [factor, …]], …], "impl": <codings of the real pick_contrasts or null>}
             → model output of `pickContrasts`, and the interval-partition predicate evaluated on the
               model's and on the implementation's codings
-  c03_pipe  {"terms": [<term>, …], "env_copyable": bool, "levels": {factor: n}, "impl": <design or null>}
+  c03_pipe  {"terms": [<term>, …], "env_copyable": bool, "levels": {factor: n}, "impl": <design or null>,
+             "widths": {numeric atom: columns}  (optional; atoms not listed have one column)}
             <term> = {"i": true} | {"c": [[name, "n"|"c", isCall], …]}
             <design> = [[term name, [[component name, "n"|"c", flag], …]], …]
             → model output of `Encoding.run`, the terms of the design, guard classes, the
@@ -80,17 +81,25 @@ def levelsOfJson (j : Json) : String → Nat :=
     | _ => []
   fun f => ((tbl.find? (·.1 == f)).map (·.2)).getD 0
 
+/-- column counts of numeric atoms with several columns; 1 when not listed -/
+def widthsOfJson (j : Json) : String → Nat :=
+  let tbl : List (String × Nat) := match j with
+    | .obj kvs => kvs.toList.map (fun (k, v) => (k, (v.getNat?).toOption.getD 1))
+    | _ => []
+  fun a => ((tbl.find? (·.1 == a)).map (·.2)).getD 1
+
 def pipe (j : Json) : Json :=
   let terms := (getArr j "terms").map termOfJson
   if terms.any Option.isNone then errJ "malformed_term" else
   let fam := terms.filterMap id
   let envc := getBool j "env_copyable"
   let levels := levelsOfJson ((j.getObjVal? "levels").toOption.getD Json.null)
+  let widths := widthsOfJson ((j.getObjVal? "widths").toOption.getD Json.null)
   let sfam := fam.map Spec.C03.ofTerm
   let model := match run envc fam with
     | .ok coded => Json.mkObj [("ok", Json.arr (coded.map codedJson).toArray),
         ("design", Json.arr ((designTerms coded).map codedJson).toArray),
-        ("cols", Spec.C03.totalColumns levels ((designTerms coded).map Spec.C03.ofCoded))]
+        ("cols", Spec.C03.totalColumnsW levels widths ((designTerms coded).map Spec.C03.ofCoded))]
     | .error e => Json.mkObj [("err", e.tag)]
   let second := match secondFamily envc fam with
     | .ok f2 => jStrs (f2.map (·.name))
@@ -106,14 +115,14 @@ def pipe (j : Json) : Json :=
     | .arr a =>
       let design := a.toList.map codedOfJson
       [("spec", Json.bool (Spec.C03.holds fam design)),
-       ("impl_cols", Json.num (Spec.C03.totalColumns levels (design.map Spec.C03.ofCoded)))]
+       ("impl_cols", Json.num (Spec.C03.totalColumnsW levels widths (design.map Spec.C03.ofCoded)))]
     | _ => []
   Json.mkObj ([("model", model), ("second_family", second), ("classes", jStrs classes),
     ("single_pass2", Json.bool (Spec.C03.SinglePass2 envc fam)),
     ("model_holds", Json.bool (Spec.C03.modelHolds envc fam)),
     ("pipeline_guard", Json.bool (Encoding.pipelineGuard envc fam)),
     ("hier_family", Json.bool (Encoding.hierFamily fam)),
-    ("dim", Json.num (Spec.C03.modelDim levels sfam))] ++ implPart)
+    ("dim", Json.num (Spec.C03.modelDimW levels widths sfam))] ++ implPart)
 
 def handle (op : String) (j : Json) : Option Json :=
   match op with
